@@ -65,6 +65,16 @@ def install_datagram_env(ip):
         return (t, proto)
 
     def transport_handler(ip_, o, name, args, kw, ctx):
+        if name == "get_extra_info":
+            key = args[0] if args else None
+            if key == "sockname":
+                # the address the socket is really bound to: the configured port, or the one the system picked for port 0
+                port = o.state["port"]
+                bound = port if not (isinstance(port, int) and port == 0) else 49152 + len(getattr(ctx, "sockets", []))
+                return ("0.0.0.0", bound)
+            if key == "socket":
+                raise Unsupported("transport.get_extra_info('socket')")
+            return args[1] if len(args) > 1 else None
         if name == "is_closing":
             return bool(o.state["closed"])
         if name == "close":
